@@ -413,6 +413,27 @@ func TestC12(t *testing.T) {
 	}
 	r.Rapid(t, "small", 24000, 800000, prop(100000, false))
 	r.Rapid(t, "heavy-codecs", 300, 12000, prop(20000, true))
+	// fixed cases across the 4 MiB internal chunk boundary of ANS1 and FPAQ (cheap enough for every run)
+	idx := 0
+	for _, codec := range []string{"FPAQ", "ANS1"} {
+		for _, extra := range []int{1, 2, 3, 4097} {
+			for _, shape := range []int{0, 5} {
+				idx++
+				if !r.Mine(idx) {
+					continue
+				}
+				c := C12Case{Codec: codec, Hist: &HistRecipe{Alpha: 256, Shape: shape, Len: 4<<20 + extra, Arrange: 0, Seed: uint64(idx)}, BlockSize: 8 << 20, Prefix: idx % 8, PadBits: idx % 7, BufSize: 65536}
+				if o := c12Eval(r, c); o.msg != "" {
+					if r.Survey() {
+						r.Violation(t, "entropy", c, "%s", o.msg)
+						continue
+					}
+					r.RecordFailure("entropy", c, "", o.msg)
+					t.Fatalf("chunk-boundary case: %s on %s", o.msg, jsonOf(c))
+				}
+			}
+		}
+	}
 	if r.Thorough() {
 		// chunk boundaries of the 4 MiB chunk codecs and multi-MiB blocks of the bit-wise coders
 		r.Rapid(t, "large", 0, 160, func(t *rapid.T) {
